@@ -126,7 +126,7 @@ std::string int64negToString( int64_t value)
 {
 
    // convert into a positive value
-   const uint64_t  abs_value = -value;
+   const uint64_t  abs_value = -static_cast< uint64_t>( value);
 
    // actually we create a string with result_len + 1
    // but then we would have to sub 1 again two times (so 1 add, 2 subs), so
@@ -187,7 +187,7 @@ int int64negToString( char* buffer, int64_t value)
 {
 
    // convert into a positive value
-   const uint64_t  abs_value = -value;
+   const uint64_t  abs_value = -static_cast< uint64_t>( value);
 
    // actually we create a string with result_len + 1
    // but then we would have to sub 1 again two times (so 1 add, 2 subs), so
